@@ -6,7 +6,7 @@ import mpmath as mp
 import numpy as np
 from hypothesis import strategies as st
 
-from ..core import Facet, Violation
+from ..core import Facet, Violation, clear_package_caches
 from ..gen import logfloat, quaternion, rotmat_from_quat, unit_vector
 from ..ref import geom, units
 
@@ -691,7 +691,7 @@ def _cross_sections_si(mat):
     from scippneutron.atoms import ScatteringParams
 
     if mat["kind"] == "isotope":
-        ScatteringParams.for_isotope.cache_clear()
+        clear_package_caches()
         sp = ScatteringParams.for_isotope(mat["name"])
         for v in (sp.total_scattering_cross_section, sp.absorption_cross_section):
             if v.unit != sc.Unit("barn") or v.variances is not None:
